@@ -240,6 +240,14 @@ def run(ctx):
         check_readonly(ctx, ctx.fb(cfg), cfg)
     check_parallel(ctx, fb)
     check_retry(ctx, fb)
+    # R18-5 (shared with C20 R20-4 / C05 R05-2): the named inputs live in a HashMap whose iteration order differs per thread and per
+    # map: the witness is independent of that order only because every input is stored whole into its own declared region under an
+    # exact length test (an over-long input spilling into its neighbour makes the result depend on which of the two is visited last)
+    from . import c20 as _c20
+    _sub = type(ctx)(ctx.pid, ctx.tier)
+    _c20.check_evaluate(_sub, fb)
+    for r in _sub.results:
+        (ctx.ok if r.status == "ok" else ctx.fail)("R18-5", r.instance, r.reason, r.loc)
     # fixtures: a static mut and an interior-mutable field must be seen
     fx = ctx.fb("fixtures")
     sm = [p for p, it in fx.items.items() if it.kind == "Static" and it.get("static_mut")]
